@@ -149,6 +149,16 @@ def build(ctx, incdir=None):
         add("scalar, then array, under one p-name", ["tdm", "none"], [("decl", t, "p2", val), st("G", [V("p2")], []), parr("p2", "complex", (1, 2)), st("H", [V("p2")], [("k", V("p2"))])])
         # (array first, then a scalar under the same p-name: the implementation refuses the later use with "p2 must be an
         #  array"; the property does not say what a p-name that stops being an array denotes - not generated)
+    # an ordinary variable named like a template parameter that was evaluated before it (only names registered as p-arrays are
+    # passed by name; a template parameter is not one, whatever it is called)
+    for t, shape in itertools.product(ELEMS, SHAPES[1:3]):
+        for nm in ("A", "gain", "r"):
+            ordinary = parr(nm, t, shape)
+            first = st("K", [B("*", N("2"), P(nm))], [("k", P(nm))])
+            add("ordinary array named like an earlier template parameter", ["tdm", "tdm-target", "none"], [parr("p0", t, shape), first, ordinary, st("G", [V(nm), V("p0")], [("w", V(nm))])])
+            add("ordinary array named like an earlier template parameter", ["tdm"], [ordinary, ("for", "int", "i", ("range", 0, 2, None), [("stmt", "L", [P(nm), V("i")], [], [V("i")], "none")]), parr("p1", t, shape), st("G", [V("p1"), V(nm)], [])])
+    for t, val in (("float", N("0.25")), ("int", N("3")), ("complex", N("1-2j"))):
+        add("ordinary scalar named like an earlier template parameter", ["tdm", "none"], [parr("p0", "float", (1, 2)), st("K", [P("x"), V("p0")], []), ("decl", t, "x", val), st("G", [V("x"), V("p0")], [("w", V("x"))])])
     add("no p-arrays", allm, [st("G", [N("1")], [])])
     add("no p-arrays, parameter", allm, [st("G", [P("a")], [])])
     return scripts, fam
